@@ -16,6 +16,8 @@ use std::sync::Barrier;
 pub enum Step {
     Exec(usize),
     Snapshot(usize),
+    /// the host registers the function `late` in the context (it was not there before)
+    Register,
 }
 
 #[derive(Clone, Debug, Serialize, Deserialize)]
@@ -64,7 +66,7 @@ pub fn gen_prog(u: &mut Chooser, ctx: &[(String, V)]) -> E {
     let idx = |a: E, i: i64| E::Index(b(a), b(E::Lit(V::Int(i))));
     let mac = |m: Mac, r: E, body: E| E::Macro(m, b(r), "x".into(), vec![body]);
     let x = || E::var("x");
-    match u.below(37) {
+    match u.below(44) {
         0 => add(l(u), lit_l(u)),
         1 => add(l(u), l(u)),
         2 => {
@@ -112,6 +114,19 @@ pub fn gen_prog(u: &mut Chooser, ctx: &[(String, V)]) -> E {
         32 => E::List(vec![add(E::var("acc"), E::Lit(V::s("c"))), add(E::var("acc"), E::Lit(V::s("d"))), E::var("acc")]),
         33 => add(E::var("lacc"), E::List(vec![E::Lit(V::Int(7))])),
         34 => E::List(vec![add(E::var("lacc"), E::var("lacc")), E::var("lacc")]),
+        // map literals holding a number under both integer key types: whichever entry answers, it answers the same way every time
+        35 => E::Index(b(E::Map(vec![(E::Lit(V::Int(1)), E::Lit(V::s("i"))), (E::Lit(V::UInt(1)), E::Lit(V::s("u")))])), b(E::Lit(V::Int(1)))),
+        36 => E::Index(b(E::Map(vec![(E::Lit(V::UInt(1)), E::Lit(V::s("u"))), (E::Lit(V::Int(1)), E::Lit(V::s("i")))])), b(E::Lit(V::UInt(1)))),
+        37 => {
+            let m = || E::Map(vec![(E::Lit(V::Int(2)), E::Lit(V::s("a"))), (E::Lit(V::UInt(2)), E::Lit(V::s("b"))), (E::Lit(V::Int(3)), E::Lit(V::s("c")))]);
+            E::List(vec![E::Index(b(m()), b(E::Lit(V::Int(2)))), E::Index(b(m()), b(E::Lit(V::UInt(2)))), E::call("size", vec![m()])])
+        }
+        38 => E::Index(b(E::Map(vec![(E::Lit(V::Int(0)), l(u)), (E::Lit(V::UInt(0)), lit_l(u))])), b(E::Lit(V::Int(0)))),
+        // a function the context may or may not have (yet), and a field of that name
+        39 => add(E::List(vec![E::call("late", vec![])]), lit_l(u)),
+        40 => E::List(vec![E::call("late", vec![]), E::call("late", vec![])]),
+        41 => E::Select(b(E::var("m0")), "late".into()),
+        42 => E::Cond(b(E::var("b0")), b(E::call("late", vec![])), b(E::Lit(V::Int(0)))),
         _ => {
             // a random typed program over the same context
             let vars: Vec<Var> = ctx
@@ -168,7 +183,11 @@ pub fn gen_history(u: &mut Chooser) -> History {
     let np = 1 + u.below(6);
     let programs: Vec<E> = (0..np).map(|_| gen_prog(u, &ctx)).collect();
     let ns = 2 + u.below(49);
-    let steps = (0..ns).map(|_| if u.chance(1, 5) { Step::Snapshot(u.below(ctx.len())) } else { Step::Exec(u.below(np)) }).collect();
+    let mut steps: Vec<Step> = (0..ns).map(|_| if u.chance(1, 5) { Step::Snapshot(u.below(ctx.len())) } else { Step::Exec(u.below(np)) }).collect();
+    if u.chance(1, 3) {
+        let at = u.below(steps.len() + 1);
+        steps.insert(at, Step::Register);
+    }
     History { ctx, programs, steps }
 }
 
@@ -205,6 +224,7 @@ pub fn check_history(h: &History) -> Outcome {
     }
     let h_ctx = model_ctx;
     let mut first: Vec<Option<R>> = vec![None; progs.len()];
+    let mut late_registered = false;
     // every value obtained so far (real interpreter values sharing Arcs with whatever produced them) with its deep model copy
     let mut kept: Vec<(String, Value, V)> = seed_values;
     let mut reexec = 0;
@@ -219,7 +239,8 @@ pub fn check_history(h: &History) -> Outcome {
                 };
                 let r = sut::from_result(res.clone());
                 // every execution, first or repeated, must be what the program yields "alone": the reference evaluator's result
-                let variants = crate::props::c03::model_variants(&h.programs[*i], &h_ctx, &vec![], false);
+                let cf: Vec<(String, V)> = if late_registered { vec![("late".to_string(), V::Int(42))] } else { vec![] };
+                let variants = crate::props::c03::model_variants_with(&h.programs[*i], &h_ctx, &vec![], false, &cf);
                 let mut order_dependent = false;
                 match &variants[0].0 {
                     Err(crate::model::eval::Stop::Unsupported(why)) => {
@@ -233,10 +254,18 @@ pub fn check_history(h: &History) -> Outcome {
                         }
                     }
                 }
+                // a macro ranging over a map with several entries visits them in an unspecified order that may differ from one
+                // execution to the next ("up to the unspecified iteration order of maps"): decided from the program text and
+                // the context, independently of whether the reference evaluator covers the program
+                let multi = |v: &V| v.any(&|x| matches!(x, V::Map(es) if es.len() >= 2));
+                if h.programs[*i].any(&|x| matches!(x, E::Macro(..))) && (h.programs[*i].any(&|x| matches!(x, E::Map(es) if es.len() >= 2)) || h_ctx.iter().any(|(n, v)| multi(v) && h.programs[*i].any(&|x| matches!(x, E::Var(m) if m == n)))) {
+                    order_dependent = true;
+                }
                 match &first[*i] {
                     None => first[*i] = Some(r),
                     Some(f) => {
                         reexec += 1;
+                        // (an order-dependent result can differ arbitrarily - `m.filter(..)[0]` - so it is not compared at all)
                         if !order_dependent && !same_result(f, &r) {
                             return fail(format!("step {k}: executing `{src}` again against the unchanged context gives {}, the first execution gave {} (context {})", r.show(), f.show(), sut::trunc(&format!("{:?}", h_ctx), 500)));
                         }
@@ -249,6 +278,18 @@ pub fn check_history(h: &History) -> Outcome {
                 if let Ok(v) = res {
                     let m = from_cel(&v);
                     kept.push((format!("result of `{src}` at step {k}"), v, m));
+                }
+            }
+            Step::Register => {
+                if !late_registered {
+                    ctx.add_function("late", || 42i64);
+                    late_registered = true;
+                    // results of programs that call `late` legitimately change from here on
+                    for (i, e) in h.programs.iter().enumerate() {
+                        if e.any(&|x| matches!(x, E::Call(n, ..) if n == "late") || matches!(x, E::Select(_, f) if f == "late")) {
+                            first[i] = None;
+                        }
+                    }
                 }
             }
             Step::Snapshot(vi) => {
